@@ -17,6 +17,7 @@ import (
 	"os"
 	"path/filepath"
 	"runtime"
+	"runtime/debug"
 	"sort"
 	"strings"
 	"sync"
@@ -59,15 +60,20 @@ type Case struct {
 
 // ---- graph space --------------------------------------------------------------------
 
+type combo struct {
+	main string
+	mods []string
+}
+
 type block struct {
-	n       int
-	graphs  []graph
-	assigns [][]string // module variant assignments
-	label   string
+	n      int
+	graphs []graph
+	combos []combo // (main variant, module variant assignment)
+	label  string
 }
 
 func (b block) size() int64 {
-	return int64(len(b.graphs)) * 2 * int64(len(mainVariants)) * int64(len(b.assigns))
+	return int64(len(b.graphs)) * 2 * int64(len(b.combos))
 }
 
 func allGraphs(n, maxOut int) []graph {
@@ -111,8 +117,8 @@ func productAssigns(n int) [][]string {
 	return out
 }
 
-// uniform assignments (all modules the same variant) + rotated ones (module i gets variant i+shift)
-func uniformRotatedAssigns(n int) [][]string {
+// uniform assignments: all modules the same variant
+func uniformAssigns(n int) [][]string {
 	var out [][]string
 	for _, v := range modVariants {
 		a := make([]string, n)
@@ -121,36 +127,57 @@ func uniformRotatedAssigns(n int) [][]string {
 		}
 		out = append(out, a)
 	}
+	return out
+}
+
+// rotated assignments: module i gets variant (i+shift), all shifts
+func rotatedAssigns(n int) [][]string {
+	var out [][]string
 	for s := 0; s < len(modVariants); s++ {
 		a := make([]string, n)
 		for i := range a {
-			a[i] = modVariants[(i+1+s*5)%len(modVariants)]
+			a[i] = modVariants[(i+s)%len(modVariants)]
 		}
-		dup := false
-		for _, b := range out {
-			if strings.Join(a, ",") == strings.Join(b, ",") {
-				dup = true
+		out = append(out, a)
+	}
+	return out
+}
+
+// cross = every main variant with every assignment; distinct combos only.
+func cross(mains []string, assigns ...[][]string) []combo {
+	var out []combo
+	seen := map[string]bool{}
+	for _, m := range mains {
+		for _, as := range assigns {
+			for _, a := range as {
+				k := m + "|" + strings.Join(a, ",")
+				if !seen[k] {
+					seen[k] = true
+					out = append(out, combo{m, a})
+				}
 			}
-		}
-		if !dup {
-			out = append(out, a)
 		}
 	}
 	return out
 }
 
 func graphBlocks(thorough bool) []block {
+	top := []string{"top"}
+	inFunc := []string{"fcall", "fnocall"}
 	bs := []block{
-		{n: 0, graphs: allGraphs(0, 0), assigns: productAssigns(0), label: "n=0 all graphs x all variant assignments"},
-		{n: 1, graphs: allGraphs(1, 1), assigns: productAssigns(1), label: "n=1 all graphs x all variant assignments"},
-		{n: 2, graphs: allGraphs(2, 2), assigns: productAssigns(2), label: "n=2 all 64 graphs x all 36 variant assignments"},
+		{n: 0, graphs: allGraphs(0, 0), combos: cross(mainVariants, productAssigns(0)), label: "n=0: main alone x 3 main variants"},
+		{n: 1, graphs: allGraphs(1, 1), combos: cross(mainVariants, productAssigns(1)), label: "n=1: all 4 graphs x 3 main variants x all 6 module variants"},
+		{n: 2, graphs: allGraphs(2, 2), combos: cross(mainVariants, productAssigns(2)), label: "n=2: all 64 graphs x 3 main variants x all 36 variant assignments"},
 	}
 	if thorough {
 		bs = append(bs,
-			block{n: 3, graphs: allGraphs(3, 3), assigns: productAssigns(3), label: "n=3 all 4096 graphs x all 216 variant assignments"},
-			block{n: 4, graphs: allGraphs(4, 2), assigns: uniformRotatedAssigns(4), label: "n=4 all graphs with out-degree<=2 x uniform+rotated variant assignments"})
+			block{n: 4, graphs: allGraphs(4, 2), label: "n=4: all 161051 graphs with out-degree<=2 x (main top x uniform+rotated assignments, main fcall/fnocall x all-map assignment)",
+				combos: append(cross(top, uniformAssigns(4), rotatedAssigns(4)), cross(inFunc, uniformAssigns(4)[:1])...)},
+			block{n: 3, graphs: allGraphs(3, 3), label: "n=3: all 4096 graphs x (main top x all 216 variant assignments, main fcall/fnocall x uniform+rotated assignments)",
+				combos: append(cross(top, productAssigns(3)), cross(inFunc, uniformAssigns(3), rotatedAssigns(3))...)})
 	} else {
-		bs = append(bs, block{n: 3, graphs: allGraphs(3, 3), assigns: uniformRotatedAssigns(3), label: "n=3 all 4096 graphs x uniform+rotated variant assignments"})
+		bs = append(bs, block{n: 3, graphs: allGraphs(3, 3), combos: append(cross(mainVariants, uniformAssigns(3)), cross(top, rotatedAssigns(3))...),
+			label: "n=3: all 4096 graphs x (3 main variants x uniform assignments, main top x rotated assignments)"})
 	}
 	return bs
 }
@@ -158,19 +185,16 @@ func graphBlocks(thorough bool) []block {
 // decode maps an index of the block to a case; ok=false when the element is a
 // duplicate (descending order of a graph in which no node has two imports).
 func (b block) decode(i int64) (c Case, ok bool) {
-	na := int64(len(b.assigns))
-	nm := int64(len(mainVariants))
-	ai := i % na
-	i /= na
-	mi := i % nm
-	i /= nm
+	nc := int64(len(b.combos))
+	ci := i % nc
+	i /= nc
 	desc := i%2 == 1
 	gi := i / 2
 	g := b.graphs[gi]
 	if desc && !g.hasBranching() {
 		return Case{}, false
 	}
-	return Case{Kind: "graph", N: b.n, Edges: g.edges(), Desc: desc, MainVar: mainVariants[mi], ModVars: b.assigns[ai]}, true
+	return Case{Kind: "graph", N: b.n, Edges: g.edges(), Desc: desc, MainVar: b.combos[ci].main, ModVars: b.combos[ci].mods}, true
 }
 
 // ---- aggregation -------------------------------------------------------------------
@@ -179,7 +203,39 @@ type stats struct {
 	outcomes   map[string]int64
 	counters   map[string]int64
 	shapes     map[string]int64
-	violations []viol
+	violations map[string]*vgroup
+}
+
+// vgroup keeps the count and the few smallest examples of one signature.
+type vgroup struct {
+	count int64
+	ex    []viol
+}
+
+const keepExamples = 5
+
+func (s *stats) addViolation(v viol, n int64) {
+	g := s.violations[v.sig]
+	if g == nil {
+		g = &vgroup{}
+		s.violations[v.sig] = g
+	}
+	g.count += n
+	g.ex = append(g.ex, v)
+	sort.SliceStable(g.ex, func(i, j int) bool {
+		wi, wj := caseWeight(g.ex[i].c), caseWeight(g.ex[j].c)
+		if wi != wj {
+			return wi < wj
+		}
+		return caseKey(g.ex[i].c) < caseKey(g.ex[j].c)
+	})
+	if len(g.ex) > keepExamples {
+		g.ex = g.ex[:keepExamples]
+	}
+}
+
+func caseKey(c Case) string {
+	return fmt.Sprint(c.Kind, c.ID, c.N, c.Edges, c.Desc, c.MainVar, c.ModVars)
 }
 
 type viol struct {
@@ -188,7 +244,7 @@ type viol struct {
 }
 
 func newStats() *stats {
-	return &stats{outcomes: map[string]int64{}, counters: map[string]int64{}, shapes: map[string]int64{}}
+	return &stats{outcomes: map[string]int64{}, counters: map[string]int64{}, shapes: map[string]int64{}, violations: map[string]*vgroup{}}
 }
 
 func (s *stats) merge(o *stats) {
@@ -201,7 +257,15 @@ func (s *stats) merge(o *stats) {
 	for k, v := range o.shapes {
 		s.shapes[k] += v
 	}
-	s.violations = append(s.violations, o.violations...)
+	for _, g := range o.violations {
+		for i, v := range g.ex {
+			n := int64(0)
+			if i == 0 {
+				n = g.count
+			}
+			s.addViolation(v, n)
+		}
+	}
 }
 
 // runAny executes one case of any kind and folds the result into st.
@@ -265,7 +329,7 @@ func runAny(c Case, st *stats) (obs string) {
 	st.counters["cases"]++
 	st.outcomes[obs]++
 	for _, f := range fails {
-		st.violations = append(st.violations, viol{f.sig, f.what, c})
+		st.addViolation(viol{f.sig, f.what, c}, 1)
 	}
 	return obs
 }
@@ -329,8 +393,10 @@ func main() {
 			obs := runAny(c, st)
 			fmt.Printf("case %s\n", describe(c))
 			fmt.Printf("  observed: %s\n", obs)
-			for _, v := range st.violations {
-				fmt.Printf("  FAIL %s: %s\n", v.sig, v.what)
+			for _, g := range st.violations {
+				for _, v := range g.ex {
+					fmt.Printf("  FAIL %s: %s\n", v.sig, v.what)
+				}
 			}
 		}
 		cleanup()
@@ -338,6 +404,15 @@ func main() {
 	}
 
 	r := report.New("C13")
+	// every compile allocates a 1024-slot globals array and every run a VM stack: the live heap is tiny and the
+	// allocation rate huge, so collect by memory limit instead of by heap growth
+	debug.SetGCPercent(-1)
+	debug.SetMemoryLimit(384 << 20)
+	budget := 5 * time.Minute
+	if r.Thorough() {
+		budget = 9*time.Minute + 30*time.Second
+	}
+	var capped int32
 	blocks := graphBlocks(r.Thorough())
 	small := append(append(append(isolationProgs(), valueProgs()...), freshProgs()...), immutCases()...)
 	small = append(small, fileCases()...)
@@ -411,6 +486,10 @@ func main() {
 					if lo >= n {
 						break
 					}
+					if bi >= 0 && r.Elapsed() > budget {
+						atomic.StoreInt32(&capped, 1)
+						break
+					}
 					hi := lo + chunk
 					if hi > n {
 						hi = n
@@ -442,6 +521,9 @@ func main() {
 	}
 	parallel(-1, int64(len(small)), func(i int64) (Case, bool) { return small[i], true })
 	atomic.StoreInt32(&done, 1)
+	if atomic.LoadInt32(&capped) != 0 {
+		r.NotExhaustive(fmt.Sprintf("internal deadline of %v reached while enumerating the graph blocks; %d graph cases were executed", budget, total.counters["graph-cases"]))
+	}
 
 	// thorough: the disabled-file-import cases once more under strace
 	if r.Thorough() {
@@ -465,23 +547,21 @@ func main() {
 
 	// fold
 	var sigs []string
-	bySig := map[string][]viol{}
-	for _, v := range total.violations {
-		if _, ok := bySig[v.sig]; !ok {
-			sigs = append(sigs, v.sig)
-		}
-		bySig[v.sig] = append(bySig[v.sig], v)
+	for sig := range total.violations {
+		sigs = append(sigs, sig)
 	}
 	sort.Strings(sigs)
 	for _, sig := range sigs {
-		vs := bySig[sig]
-		sort.SliceStable(vs, func(i, j int) bool { return caseWeight(vs[i].c) < caseWeight(vs[j].c) })
-		for _, v := range vs {
-			if strings.HasPrefix(v.sig, "internal/") {
-				r.Internal("%s: %s", v.sig, v.what)
-				continue
-			}
+		g := total.violations[sig]
+		if strings.HasPrefix(sig, "internal/") {
+			r.Internal("%s (%d cases): %s", sig, g.count, g.ex[0].what)
+			continue
+		}
+		for _, v := range g.ex {
 			r.Violation(v.sig, v.what, v.c)
+		}
+		for i := int64(len(g.ex)); i < g.count; i++ {
+			r.Violation(sig, g.ex[0].what, g.ex[0].c)
 		}
 	}
 	if n := total.counters["file-decoy-ineffective"]; n > 0 {
@@ -505,7 +585,7 @@ func main() {
 	r.Set("graph_shapes", total.shapes)
 	var labels []string
 	for _, b := range blocks {
-		labels = append(labels, fmt.Sprintf("%s: %d graphs, %d variant assignments", b.label, len(b.graphs), len(b.assigns)))
+		labels = append(labels, fmt.Sprintf("%s [%d graphs x <=2 orders x %d variant combinations]", b.label, len(b.graphs), len(b.combos)))
 	}
 	r.Set("graph_blocks", labels)
 	r.Set("module_variants", modVariants)
@@ -524,7 +604,7 @@ func main() {
 		r.Sample(map[string]interface{}{"case": small[i], "observed": runAny(small[i], newStats())})
 	}
 	r.Assume("immutability is claimed for the value the import expression yields (docs: \"export-ed values are always immutable\"); containers nested inside it stay mutable (the VM's immutable conversion is shallow), so writes through a nested container are only required to leave the top level (element identity, type) unchanged")
-	r.Assume("non-termination of import resolution is detected by a bound on resolver calls (300 per compile; the largest acyclic graph below the bound needs < 40 even without any caching) instead of waiting for the Go stack to overflow; any other hang by a 25 s watchdog")
+	r.Assume("non-termination of import resolution is detected by a bound on resolver calls (32 per compile; a compiler with a correct cycle check needs at most one call per simple import path from main plus one, <= 31 below the bound, and <= 12 with the module cache) instead of waiting for the Go stack to overflow; any other hang by a 25 s watchdog")
 	r.Assume("module bodies are recognised in the constant pool by a unique marker string constant loaded in the body's first statement")
 	r.Assume("import(\"\") is rejected as 'empty module name' under every setting; the property's 'not found' wording is not demanded for it")
 	cleanup()
